@@ -368,6 +368,8 @@ impl<'v> DictLike<'v> for RefCell<Dict<'v>> {
     #[inline]
     unsafe fn iter_start(&self) {
         mem::forget(self.borrow());
+        #[cfg(starlark_verif)]
+        crate::verif::emit("iter_start", 1, self as *const Self as usize as i64, 0);
     }
 
     #[inline]
@@ -375,6 +377,8 @@ impl<'v> DictLike<'v> for RefCell<Dict<'v>> {
         unsafe {
             unleak_borrow(self);
         }
+        #[cfg(starlark_verif)]
+        crate::verif::emit("iter_stop", 1, self as *const Self as usize as i64, 0);
     }
 
     #[inline]
